@@ -486,7 +486,7 @@ impl Space {
                 if self.thorough {
                     p * p * p
                 } else {
-                    p * p * 4
+                    STRATA3 + p * p * 4
                 }
             }
             _ => {
@@ -503,7 +503,43 @@ impl Space {
     /// space in a fixed pseudo-random order (multiplication by a prime modulo the size), so that
     /// a prefix of the positions is a spread-out sample of the product.
     fn case(&self, ti: usize, t: &Target, k: u64) -> (Val, Vec<Val>) {
-        let n = self.ncases(t);
+        if t.arity == 2 && !self.thorough {
+            // quick tier: the first STRATA3 positions are a stratified cube — every combination of the
+            // type classes of (input, $a0, $a1), each with a member of the class chosen by the seed — so that
+            // the distinct type-error / conversion / boundary sites of a target are reached before its CPU
+            // budget can cut the enumeration; the pseudo-random order over all argument pairs follows
+            if k < STRATA3 {
+                let classes = self.classes();
+                let c = NCLASS as u64;
+                let (ci, c0, c1) = (k / (c * c), k / c % c, k % c);
+                let mut r = Rng::new(self.seed ^ (ti as u64) << 32 ^ k.wrapping_mul(0x9E3779B97F4A7C15));
+                let mut pick = |cl: u64| {
+                    let m = &classes[cl as usize];
+                    self.pool[m[r.below(m.len())]].clone()
+                };
+                let i = pick(ci);
+                return (i, vec![pick(c0), pick(c1)]);
+            }
+            return self.case_bulk(ti, t, k - STRATA3, self.ncases(t) - STRATA3);
+        }
+        self.case_bulk(ti, t, k, self.ncases(t))
+    }
+
+    /// indices of the pool members per type class
+    fn classes(&self) -> Vec<Vec<usize>> {
+        let mut out = vec![vec![]; NCLASS];
+        for (i, v) in self.pool.iter().enumerate() {
+            out[type_class(v)].push(i);
+        }
+        for (c, m) in out.iter_mut().enumerate() {
+            if m.is_empty() {
+                m.push(c % self.pool.len());
+            }
+        }
+        out
+    }
+
+    fn case_bulk(&self, ti: usize, t: &Target, k: u64, n: u64) -> (Val, Vec<Val>) {
         let m = [1_000_003u64, 998_244_353, 7919, 104_729].into_iter().find(|m| n % m != 0 && gcd(n, *m) == 1).unwrap_or(1);
         let j = ((k as u128 * m as u128) % n as u128) as u64;
         let p = self.pool.len() as u64;
@@ -543,6 +579,25 @@ impl Space {
                 (inp, (0..n).map(|_| pl(r.below(p as usize) as u64)).collect())
             }
         }
+    }
+}
+
+const NCLASS: usize = 12;
+const STRATA3: u64 = (NCLASS * NCLASS * NCLASS) as u64;
+
+/// type class of a pool value (what built-ins dispatch on)
+fn type_class(v: &Val) -> usize {
+    match v {
+        Val::Null => 0,
+        Val::Bool(_) => 1,
+        Val::Num(Num::Int(i)) => if i.unsigned_abs() < (1 << 32) { 2 } else { 3 },
+        Val::Num(Num::BigInt(_)) => 4,
+        Val::Num(Num::Float(f)) => if f.is_finite() { 5 } else { 6 },
+        Val::Num(Num::Dec(_)) => 7,
+        Val::TStr(_) => 8,
+        Val::BStr(_) => 9,
+        Val::Arr(_) => 10,
+        Val::Obj(_) => 11,
     }
 }
 
@@ -594,9 +649,28 @@ struct Tally {
 
 enum Outcome {
     Vals(usize),
-    Err,
+    /// class of the error message (digits removed, first 32 characters, hashed)
+    Err(u64),
     Empty,
     Halt,
+}
+
+fn msg_class(m: &[u8]) -> u64 {
+    // first two words and the last word when it is a plain word ("cannot use … as integer"): the values
+    // quoted inside a message do not make a new class
+    let text = String::from_utf8_lossy(m);
+    let words: Vec<&str> = text.split_whitespace().collect();
+    let mut key: Vec<&str> = words.iter().take(2).copied().collect();
+    if let Some(l) = words.last() {
+        if words.len() > 2 && l.len() <= 10 && l.chars().all(|c| c.is_ascii_alphabetic()) {
+            key.push(l);
+        }
+    }
+    let mut h = 0xcbf29ce484222325u64;
+    for b in key.join(" ").bytes() {
+        h = (h ^ b as u64).wrapping_mul(0x100000001b3);
+    }
+    h
 }
 
 /// Run the filter with bounded pulls; render the first output and the error message as the CLI would.
@@ -621,8 +695,10 @@ fn run_case(filter: &Filter, input: Val, vars: Vec<Val>, limit: usize) -> Outcom
                     Ok(e) => {
                         let mut sink = SmallSink(0);
                         let _ = write!(sink, "{e}");
+                        let mut head = HeadSink(Vec::new());
+                        let _ = write!(head, "{e}");
                         let _ = e.into_val();
-                        Outcome::Err
+                        Outcome::Err(msg_class(&head.0))
                     }
                     Err(_) => Outcome::Halt,
                 };
@@ -633,6 +709,19 @@ fn run_case(filter: &Filter, input: Val, vars: Vec<Val>, limit: usize) -> Outcom
         Outcome::Empty
     } else {
         Outcome::Vals(n)
+    }
+}
+
+/// a writer that keeps the first 96 bytes
+struct HeadSink(Vec<u8>);
+impl Write for HeadSink {
+    fn write(&mut self, b: &[u8]) -> std::io::Result<usize> {
+        let room = 96usize.saturating_sub(self.0.len());
+        self.0.extend_from_slice(&b[..b.len().min(room)]);
+        Ok(b.len())
+    }
+    fn flush(&mut self) -> std::io::Result<()> {
+        Ok(())
     }
 }
 
@@ -767,6 +856,10 @@ fn natives_main(args: &[String]) {
                 continue;
             }
             let mut cut = 0u64;
+            // behaviours seen so far (outcome class x error-message class x type classes of the arguments that
+            // produced it first) and the position at which the last new one appeared
+            let mut seen_beh = std::collections::BTreeSet::new();
+            let mut last_new = 0u64;
             let (mut over, mut ticks, cpu_start) = (false, 0u64, cpu_ms());
             for j in 0..n.min(o.probe) {
                 let idx = lo + j;
@@ -810,9 +903,19 @@ fn natives_main(args: &[String]) {
                 let r = guarded(|| run_case(f, inp.clone(), a.clone(), 40));
                 o.end_case();
                 tally.cases += 1;
+                let beh = match &r {
+                    Ok(Outcome::Vals(n)) => 1 + (*n).min(2) as u64,
+                    Ok(Outcome::Err(c)) => *c | 8,
+                    Ok(Outcome::Empty) => 4,
+                    Ok(Outcome::Halt) => 5,
+                    Err(_) => 6,
+                };
+                if seen_beh.insert(beh) {
+                    last_new = j;
+                }
                 match r {
                     Ok(Outcome::Vals(_)) => tally.yielded += 1,
-                    Ok(Outcome::Err) => tally.errored += 1,
+                    Ok(Outcome::Err(_)) => tally.errored += 1,
                     Ok(Outcome::Empty) => tally.empty += 1,
                     Ok(Outcome::Halt) => tally.halted += 1,
                     Err((site, msg)) => {
@@ -832,7 +935,7 @@ fn natives_main(args: &[String]) {
             }
             if tally.cases + tally.skipped + cut > 0 {
                 let mut l = so.lock();
-                let _ = writeln!(l, "F {}\t{}\t{}\t{}\t{}\t{}\t{}\t{}\t{}\t{}\t{}\t{}", t.kind, t.text, tally.cases, tally.yielded, tally.errored, tally.empty, tally.halted, tally.skipped, tally.panics, tally.excepted, t_start.elapsed().as_millis(), cut);
+                let _ = writeln!(l, "F {}\t{}\t{}\t{}\t{}\t{}\t{}\t{}\t{}\t{}\t{}\t{}\t{}\t{}\t{}\t{}", t.kind, t.text, tally.cases, tally.yielded, tally.errored, tally.empty, tally.halted, tally.skipped, tally.panics, tally.excepted, t_start.elapsed().as_millis(), cut, seen_beh.len(), last_new, t.name, t.arity);
             }
             total.cases += tally.cases;
         }
@@ -1889,8 +1992,18 @@ fn kernel_run(f: &Filter, input: Val, vars: Vec<Val>) -> Result<Vec<Val>, String
     }
 }
 
-fn kernels_main(_args: &[String]) {
+fn kernels_main(args: &[String]) {
     install_hook();
+    // a panic while the filters of the cases are being compiled (e.g. an assertion of the compiler that
+    // fires for every program) is a finding of its own, not a failure of the harness
+    if let Err((site, msg)) = guarded(|| kernels_body(args)) {
+        let req = if site.contains("compile.rs") { "c05.cwalk L" } else { "c05.setup x" };
+        eprintln!("kernels: panic while preparing the cases: {site}: {}", one_line(&msg));
+        println!("k0\t{req}\tP\t{site}");
+    }
+}
+
+fn kernels_body(args: &[String]) {
     let ints = kernel_ints();
     let mut bounds: Vec<Option<Val>> = vec![None];
     bounds.extend(ints.iter().cloned().map(Some));
@@ -2055,6 +2168,570 @@ fn kernels_main(_args: &[String]) {
             Ok(_) => "?".to_string(),
         };
         emit(format!("c05.cborneg {nn}"), real, String::new());
+    }
+    kernels_round2(args, &mut emit);
+}
+
+// ------------------------------------------------------------------------------------------
+// round 2 kernels: regex offsets, strip_fix, conversions, bsearch, indices, native environments,
+// the compiler's `Locals`
+// ------------------------------------------------------------------------------------------
+
+/// skeleton of a parsed term: exactly the operations `Compiler::term` performs on `self.locals`
+/// (mirrors `CTm` in lean/JaqVerif/C05/Compile.lean)
+enum Sk {
+    L,
+    V(usize),
+    B(usize),
+    C(usize, usize, Box<Sk>),
+    N(Box<Sk>, Box<Sk>),
+    La(usize, Box<Sk>),
+    Bi(Vec<usize>, Box<Sk>, Box<Sk>, Box<Sk>),
+    D(usize, Vec<(bool, usize)>, Box<Sk>, Box<Sk>),
+}
+
+#[derive(Default)]
+struct SkCtx {
+    names: std::collections::BTreeMap<String, usize>,
+    binders: usize,
+}
+
+impl SkCtx {
+    fn id(&mut self, s: &str) -> usize {
+        let n = self.names.len();
+        *self.names.entry(s.to_string()).or_insert(n)
+    }
+    fn seq(items: Vec<Sk>) -> Sk {
+        let mut acc = Sk::L;
+        for i in items.into_iter().rev() {
+            acc = Sk::N(Box::new(i), Box::new(acc));
+        }
+        acc
+    }
+    fn pat_keys(&mut self, p: &jaq_core::load::parse::Pattern<&str>, out: &mut Vec<Sk>) {
+        use jaq_core::load::parse::Pattern;
+        match p {
+            Pattern::Var(_) => {}
+            Pattern::Arr(a) => a.iter().for_each(|p| self.pat_keys(p, out)),
+            Pattern::Obj(o) => {
+                for (k, p) in o {
+                    out.push(self.term(k));
+                    self.pat_keys(p, out);
+                }
+            }
+        }
+    }
+    fn pat_vars(&mut self, p: &jaq_core::load::parse::Pattern<&str>, out: &mut Vec<usize>) {
+        use jaq_core::load::parse::Pattern;
+        match p {
+            Pattern::Var(x) => out.push(self.id(x)),
+            Pattern::Arr(a) => a.iter().for_each(|p| self.pat_vars(p, out)),
+            Pattern::Obj(o) => o.iter().for_each(|(_, p)| self.pat_vars(p, out)),
+        }
+    }
+    fn empty_call(&mut self) -> Sk {
+        Sk::C(self.id("!empty"), 0, Box::new(Sk::L))
+    }
+    fn defs(&mut self, defs: &[jaq_core::load::parse::Def<&str>], rest: Sk) -> Sk {
+        let mut acc = rest;
+        for d in defs.iter().rev() {
+            self.binders += 1;
+            let args = d.args.iter().map(|a| (a.starts_with('$'), self.id(a))).collect();
+            let body = self.term(&d.body);
+            acc = Sk::D(self.id(d.name), args, Box::new(body), Box::new(acc));
+        }
+        acc
+    }
+    fn term(&mut self, t: &jaq_core::load::parse::Term<&str>) -> Sk {
+        use jaq_core::load::parse::{BinaryOp, Term};
+        use jaq_core::path::Part;
+        match t {
+            Term::Id | Term::Recurse | Term::Num(_) => Sk::L,
+            Term::Arr(None) => self.empty_call(),
+            Term::Arr(Some(t)) | Term::Neg(t) => self.term(t),
+            Term::Label(x, t) => {
+                self.binders += 1;
+                Sk::La(self.id(x), Box::new(self.term(t)))
+            }
+            Term::Break(x) => Sk::B(self.id(x)),
+            Term::IfThenElse(its, else_) => {
+                let mut v = vec![];
+                for (i, t) in its {
+                    v.push(self.term(i));
+                    v.push(self.term(t));
+                }
+                if let Some(e) = else_ {
+                    v.push(self.term(e));
+                }
+                Self::seq(v)
+            }
+            Term::Var(x) => Sk::V(self.id(x)),
+            Term::Call(name, args) => {
+                let a: Vec<Sk> = args.iter().map(|t| self.term(t)).collect();
+                let n = a.len();
+                if name.contains("::") {
+                    Self::seq(a)
+                } else {
+                    Sk::C(self.id(name), n, Box::new(Self::seq(a)))
+                }
+            }
+            Term::Def(defs, t) => {
+                let rest = self.term(t);
+                self.defs(defs, rest)
+            }
+            Term::TryCatch(a, b) => {
+                let a = self.term(a);
+                let b = match b {
+                    Some(b) => self.term(b),
+                    None => self.empty_call(),
+                };
+                Self::seq(vec![a, b])
+            }
+            Term::Fold(name, xs, pat, args) => {
+                if args.len() < 2 {
+                    return Sk::L;
+                }
+                self.binders += 1;
+                let mut vars = vec![];
+                self.pat_vars(pat, &mut vars);
+                let mut v = vec![self.term(xs)];
+                self.pat_keys(pat, &mut v);
+                v.push(self.term(&args[0]));
+                let upd = self.term(&args[1]);
+                v.push(Sk::Bi(vars.clone(), Box::new(Sk::L), Box::new(upd), Box::new(Sk::L)));
+                if *name == "foreach" && args.len() == 3 {
+                    let proj = self.term(&args[2]);
+                    v.push(Sk::Bi(vars, Box::new(Sk::L), Box::new(proj), Box::new(Sk::L)));
+                }
+                Self::seq(v)
+            }
+            Term::BinOp(l, op, r) => {
+                let l = self.term(l);
+                match op {
+                    BinaryOp::Pipe(Some(pat)) => {
+                        self.binders += 1;
+                        let mut vars = vec![];
+                        self.pat_vars(pat, &mut vars);
+                        let r = self.term(r);
+                        let mut keys = vec![];
+                        self.pat_keys(pat, &mut keys);
+                        Sk::Bi(vars, Box::new(l), Box::new(r), Box::new(Self::seq(keys)))
+                    }
+                    _ => {
+                        let r = self.term(r);
+                        Sk::N(Box::new(l), Box::new(r))
+                    }
+                }
+            }
+            Term::Path(t, path) => {
+                let mut v = vec![self.term(t)];
+                for (part, _opt) in &path.0 {
+                    match part {
+                        Part::Index(i) => v.push(self.term(i)),
+                        Part::Range(a, b) => {
+                            if let Some(a) = a {
+                                v.push(self.term(a));
+                            }
+                            if let Some(b) = b {
+                                v.push(self.term(b));
+                            }
+                        }
+                    }
+                }
+                Self::seq(v)
+            }
+            Term::Str(fmt, parts) => {
+                let mut v = vec![];
+                if let Some(fmt) = fmt {
+                    v.push(Sk::C(self.id(fmt), 0, Box::new(Sk::L)));
+                }
+                for p in parts {
+                    if let jaq_core::load::lex::StrPart::Term(f) = p {
+                        v.push(self.term(f));
+                    }
+                }
+                Self::seq(v)
+            }
+            Term::Obj(o) => {
+                let mut v = vec![];
+                for (k, val) in o {
+                    v.push(self.term(k));
+                    if let Some(val) = val {
+                        v.push(self.term(val));
+                    }
+                }
+                Self::seq(v)
+            }
+        }
+    }
+}
+
+fn sk_tokens(t: &Sk, out: &mut Vec<String>) {
+    match t {
+        Sk::L => out.push("L".into()),
+        Sk::V(x) => {
+            out.push("V".into());
+            out.push(x.to_string());
+        }
+        Sk::B(x) => {
+            out.push("B".into());
+            out.push(x.to_string());
+        }
+        Sk::C(n, a, args) => {
+            out.push("C".into());
+            out.push(n.to_string());
+            out.push(a.to_string());
+            sk_tokens(args, out);
+        }
+        Sk::N(l, r) => {
+            out.push("N".into());
+            sk_tokens(l, out);
+            sk_tokens(r, out);
+        }
+        Sk::La(x, t) => {
+            out.push("La".into());
+            out.push(x.to_string());
+            sk_tokens(t, out);
+        }
+        Sk::Bi(vars, l, r, k) => {
+            out.push("Bi".into());
+            out.push(vars.len().to_string());
+            out.extend(vars.iter().map(|v| v.to_string()));
+            sk_tokens(l, out);
+            sk_tokens(r, out);
+            sk_tokens(k, out);
+        }
+        Sk::D(name, args, body, rest) => {
+            out.push("D".into());
+            out.push(name.to_string());
+            out.push(args.len().to_string());
+            out.extend(args.iter().map(|(v, x)| format!("{}{x}", if *v { "v" } else { "f" })));
+            sk_tokens(body, out);
+            sk_tokens(rest, out);
+        }
+    }
+}
+
+/// random filter text rich in binders (definitions with `$`/filter arguments, nested and sibling
+/// definitions, patterns with computed keys, labels, folds, shadowing)
+fn gen_binder_text(r: &mut Rng, depth: u32) -> String {
+    let v = ["$x", "$y", "$z", "$x"][r.below(4) as usize];
+    let f = ["f", "g", "h", "f"][r.below(4) as usize];
+    if depth == 0 {
+        return match r.below(8) {
+            0 => ".".into(),
+            1 => v.into(),
+            2 => f.into(),
+            3 => format!("{f}({v})"),
+            4 => format!("{f}(.; {v})"),
+            5 => "break $l".into(),
+            6 => format!("{f}({f})"),
+            _ => "1".into(),
+        };
+    }
+    let a = gen_binder_text(r, depth - 1);
+    let b = gen_binder_text(r, depth - 1);
+    match r.below(14) {
+        0 => format!("def {f}: {a}; {b}"),
+        1 => format!("def {f}({v}): {a}; {b}"),
+        2 => format!("def {f}(g; {v}): {a}; def g(f): {b}; {f}(.; 1) | g(.)"),
+        3 => format!("({a}) as {v} | {b}"),
+        4 => format!("({a}) as [{v}, {{a: $y, ({b}): [$z]}}] | {v}, $y, $z"),
+        5 => format!("({a}) as {{{v}}} ?// [{v}] | {b}"),
+        6 => format!("label $l | ({a}), ({b})"),
+        7 => format!("reduce ({a}) as {v} (0; {b})"),
+        8 => format!("foreach ({a}) as [{v}, $y] (0; {b}; {v}, $y)"),
+        9 => format!("def {f}({f}): def {f}: {a}; {f}; {f}({b})"),
+        10 => format!("[{a}, {b}]"),
+        11 => format!("{{({a}): {v}, {v}}} | \"s\\({b})\""),
+        12 => format!("if {a} then {b} else {f} end"),
+        _ => format!("try ({a}) catch ({b})"),
+    }
+}
+
+fn kernels_round2(args: &[String], emit: &mut dyn FnMut(String, String, String)) {
+    let ans = |r: &Result<Vec<Val>, String>| -> Option<String> {
+        match r {
+            Err(e) => Some(e.split('\t').next().unwrap().to_string()),
+            Ok(_) => None,
+        }
+    };
+    let site = |r: &Result<Vec<Val>, String>| -> String {
+        match r {
+            Err(e) if e.starts_with("P\t") => e[2..].to_string(),
+            _ => String::new(),
+        }
+    };
+    let mut rng = Rng::new(crate::prng::seed_from_env() ^ 0x52e9);
+    let nums = |v: &[usize]| if v.is_empty() { "-".to_string() } else { v.iter().map(|x| x.to_string()).collect::<Vec<_>>().join(",") };
+
+    // 8. regex: `ByteChar::char_of_byte` / `Match::new` over capture groups whose starts are not ordered.
+    // Family A: `(?:(A)|(B))+` over texts of characters of 1..4 bytes; the byte offsets of the groups are
+    // computed here by a naive matcher (a maximal run of A/B characters is one match; a group holds its
+    // LAST occurrence in the run), independently of the code under test.
+    let f_off = compile("[match($a0; \"g\") | .offset, (.captures[] | .offset)]");
+    let f_off = match f_off {
+        Ok(f) => f,
+        Err(_) => compile_vars("[match($a0; \"g\") | .offset, (.captures[] | .offset)]", &["a0".into()]).unwrap(),
+    };
+    let alphabet = ["a", "b", "\u{e9}", "\u{20ac}", "\u{1f600}", "x", "-"];
+    for case in 0..160 {
+        let n = 1 + rng.below(9) as usize;
+        let ca = alphabet[rng.below(5) as usize];
+        let mut cb = alphabet[rng.below(5) as usize];
+        if cb == ca {
+            cb = if ca == "a" { "b" } else { "a" };
+        }
+        let mut text = String::new();
+        for _ in 0..n {
+            let k = rng.below(10);
+            text.push_str(if k < 4 { ca } else if k < 8 { cb } else { alphabet[5 + rng.below(2) as usize] });
+        }
+        if case == 0 {
+            text = "ba".into();
+        }
+        let (ca, cb) = if case == 0 { ("a", "b") } else { (ca, cb) };
+        // naive matcher
+        let mut starts: Vec<usize> = vec![];
+        let mut run: Option<(usize, Option<usize>, Option<usize>)> = None;
+        for (i, ch) in text.char_indices() {
+            let s = ch.to_string();
+            if s == ca || s == cb {
+                let mut cur = run.unwrap_or((i, None, None));
+                if s == ca {
+                    cur.1 = Some(i)
+                } else {
+                    cur.2 = Some(i)
+                }
+                run = Some(cur);
+            } else if let Some((w, a, b)) = run.take() {
+                starts.push(w);
+                starts.extend(a);
+                starts.extend(b);
+            }
+        }
+        if let Some((w, a, b)) = run.take() {
+            starts.push(w);
+            starts.extend(a);
+            starts.extend(b);
+        }
+        let re = format!("(?:({ca})|({cb}))+");
+        let r = kernel_run(&f_off, tstr(text.as_bytes()), vec![tstr(re.as_bytes())]);
+        let real = ans(&r).unwrap_or_else(|| match r.as_ref().unwrap().first() {
+            Some(Val::Arr(x)) => {
+                let v: Vec<usize> = x.iter().filter_map(|v| match v { Val::Num(Num::Int(i)) => Some(*i as usize), _ => None }).collect();
+                if v.len() == x.len() { nums(&v) } else { "?".into() }
+            }
+            _ => "?".into(),
+        });
+        emit(format!("c05.regexoff x{} {}", vx::hex(text.as_bytes()), nums(&starts)), real, site(&r));
+    }
+    // Family B: other shapes of regexes (empty matches, optional and named groups, lazy quantifiers);
+    // the byte starts are recomputed from the reported character offsets (consistency + no panic)
+    for (text, re) in [
+        ("a\u{e9}b\u{20ac}", ""), ("a\u{e9}b\u{20ac}", "(?<x>.)(?<y>.)?"), ("\u{1f600}ab\u{1f600}", "(.*?)(b)"), ("abcabc", "(c)?(b)?(a)?"),
+        ("\u{e9}\u{e9}\u{e9}", "(\u{e9})*?"), ("x\u{20ac}y", "\\b"), ("aXbXc", "(?:(X)|(.))*"), ("", "()"), ("ab", "(?:(b)|(a)|())+"),
+    ] {
+        let r = kernel_run(&f_off, tstr(text.as_bytes()), vec![tstr(re.as_bytes())]);
+        let bounds: Vec<usize> = text.char_indices().map(|(i, _)| i).chain(std::iter::once(text.len())).collect();
+        let (real, starts) = match ans(&r) {
+            Some(e) => (e, vec![]),
+            None => match r.as_ref().unwrap().first() {
+                Some(Val::Arr(x)) => {
+                    let v: Vec<usize> = x.iter().filter_map(|v| match v { Val::Num(Num::Int(i)) => Some(*i as usize), _ => None }).collect();
+                    if v.len() == x.len() && v.iter().all(|c| *c < bounds.len()) {
+                        (nums(&v), v.iter().map(|c| bounds[*c]).collect())
+                    } else {
+                        ("?".into(), vec![])
+                    }
+                }
+                _ => ("?".into(), vec![]),
+            },
+        };
+        emit(format!("c05.regexoff x{} {}", vx::hex(text.as_bytes()), nums(&starts)), real, site(&r));
+    }
+    // 9. regex: the mismatch slices of `split_`/`splits` (ASCII texts: bytes = characters)
+    let f_m = compile_vars("[match($a0; \"g\") | [.offset, .length]], [splits($a0) | length]", &["a0".into()]).unwrap();
+    for (text, re) in [
+        ("a1b22c", "[0-9]+"), ("a1b22c", "[0-9]*"), ("", "x"), ("", ""), ("abc", ""), ("aaa", "a"), ("aaa", "a*"), ("a,b,,c,", ","),
+        ("xaby", "(a)(b)?"), ("abab", "(?:ab)+"), ("hello world", "o|$"), ("hello", "^|l"), ("abc", "abc"), ("abc", "(?:)b(?:)"),
+    ] {
+        let r = kernel_run(&f_m, tstr(text.as_bytes()), vec![tstr(re.as_bytes())]);
+        let (ms, real) = match ans(&r) {
+            Some(e) => ("-".to_string(), e),
+            None => {
+                let out = r.as_ref().unwrap();
+                let ms: Vec<String> = match out.first() {
+                    Some(Val::Arr(x)) => x.iter().filter_map(|m| match m {
+                        Val::Arr(p) => match (&p[0], &p[1]) {
+                            (Val::Num(Num::Int(o)), Val::Num(Num::Int(l))) => Some(format!("{o}:{}", o + l)),
+                            _ => None,
+                        },
+                        _ => None,
+                    }).collect(),
+                    _ => vec![],
+                };
+                let lens: Vec<usize> = match out.get(1) {
+                    Some(Val::Arr(x)) => x.iter().filter_map(|v| match v { Val::Num(Num::Int(i)) => Some(*i as usize), _ => None }).collect(),
+                    _ => vec![],
+                };
+                (if ms.is_empty() { "-".into() } else { ms.join(",") }, nums(&lens))
+            }
+        };
+        emit(format!("c05.mismatch {} {ms}", text.len()), real, site(&r));
+    }
+    // 10. `ltrimstr` / `rtrimstr`: strip_fix + as_sub_str (text and byte strings)
+    let f_l = compile_vars("ltrimstr($a0)", &["a0".into()]).unwrap();
+    let f_r = compile_vars("rtrimstr($a0)", &["a0".into()]).unwrap();
+    let strs = ["", "a", "ab", "abc", "abcabc", "c", "bc", "abcd", "\u{e9}", "a\u{e9}", "\u{e9}a", "\u{20ac}\u{e9}\u{20ac}", "\u{20ac}"];
+    for (mk_name, mk) in [("t", tstr as fn(&[u8]) -> Val), ("b", bstr as fn(&[u8]) -> Val)] {
+        for s in strs {
+            for fix in strs {
+                for (kind, f) in [("pre", &f_l), ("suf", &f_r)] {
+                    // mixed kinds too: a byte-string fix on a text string
+                    let fixv = if mk_name == "t" && fix.len() == 2 { bstr(fix.as_bytes()) } else { mk(fix.as_bytes()) };
+                    let r = kernel_run(f, mk(s.as_bytes()), vec![fixv]);
+                    let real = ans(&r).unwrap_or_else(|| match r.as_ref().unwrap().first() {
+                        Some(Val::TStr(b)) | Some(Val::BStr(b)) => {
+                            if kind == "pre" && b.len() != s.len() { format!("{} {}", s.len() - b.len(), b.len()) } else { format!("0 {}", b.len()) }
+                        }
+                        _ => "?".into(),
+                    });
+                    emit(format!("c05.stripfix {kind} x{} x{}", vx::hex(s.as_bytes()), vx::hex(fix.as_bytes())), real, site(&r));
+                }
+            }
+        }
+    }
+    // 11. conversions: `[n] | tobytes` (as_isize + u8::try_from), `ldexp(1; n)` (try_as_i32)
+    let f_tb = compile_vars("[$a0] | tobytes", &["a0".into()]).unwrap();
+    let f_ld = compile_vars("ldexp(1; $a0) | 0", &["a0".into()]).unwrap();
+    let mut convs: Vec<Val> = kernel_ints();
+    for i in [127isize, 128, 254, 257, -128, i32::MAX as isize, i32::MAX as isize + 1, i32::MIN as isize, i32::MIN as isize - 1, u32::MAX as isize] {
+        convs.push(int(i));
+    }
+    for b in ["255", "256", "-1", "1", "2147483647", "2147483648", "-2147483648", "-2147483649", "9223372036854775807", "-9223372036854775808"] {
+        convs.push(bigs(b));
+    }
+    for f in [0.0f64, 1.0, 255.0, 1.5, f64::NAN] {
+        convs.push(float(f));
+    }
+    for n in &convs {
+        let r = kernel_run(&f_tb, Val::Null, vec![n.clone()]);
+        let real = ans(&r).map(|e| if e == "err" { "none".to_string() } else { e }).unwrap_or_else(|| match r.as_ref().unwrap().first() {
+            Some(Val::BStr(b)) if b.len() == 1 => format!("some {}", b[0]),
+            _ => "?".into(),
+        });
+        emit(format!("c05.conv byte {}", vx::enc(n)), real, site(&r));
+        let r = kernel_run(&f_ld, Val::Null, vec![n.clone()]);
+        let real = ans(&r).map(|e| if e == "err" { "none".to_string() } else { e }).unwrap_or_else(|| "some".into());
+        emit(format!("c05.conv i32 {}", vx::enc(n)), real, site(&r));
+    }
+    // 12. `bsearch` on sorted arrays without duplicates: position computed here by a linear scan
+    let f_bs = compile_vars("bsearch($a0)", &["a0".into()]).unwrap();
+    for len in [0usize, 1, 2, 3, 7, 8] {
+        let a: Vec<Val> = (0..len as isize).map(|i| int(2 * i + 1)).collect();
+        for x in -1..(2 * len as isize + 2) {
+            let pos = a.iter().filter(|e| **e < int(x)).count();
+            let found = a.iter().any(|e| *e == int(x));
+            let r = kernel_run(&f_bs, arr(a.clone()), vec![int(x)]);
+            let real = ans(&r).unwrap_or_else(|| match r.as_ref().unwrap().first() {
+                Some(Val::Num(Num::Int(i))) => i.to_string(),
+                _ => "?".into(),
+            });
+            emit(format!("c05.bsearch {} {pos}", if found { "ok" } else { "err" }), real, site(&r));
+        }
+    }
+    // 13. `indices`: which arm runs (`windows(0)` must be unreachable)
+    let f_ix = compile_vars("indices($a0) | 0", &["a0".into()]).unwrap();
+    let shapes: Vec<(String, Val, String)> = {
+        let mut v = vec![("o".to_string(), Val::Null, "-".to_string()), ("o".to_string(), int(1), "-".to_string()), ("o".to_string(), obj(vec![]), "-".to_string())];
+        for s in ["", "a", "a\u{e9}\u{20ac}", "abab"] {
+            let st: Vec<usize> = s.char_indices().map(|(i, _)| i).collect();
+            v.push((format!("t{}", s.len()), tstr(s.as_bytes()), nums(&st)));
+            v.push((format!("b{}", s.len()), bstr(s.as_bytes()), "-".to_string()));
+        }
+        for n in [0usize, 1, 3] {
+            v.push((format!("a{n}"), arr((0..n as isize).map(int).collect()), "-".to_string()));
+        }
+        v
+    };
+    for (sx, vx_, st) in &shapes {
+        for (sy, vy, _) in &shapes {
+            let r = kernel_run(&f_ix, vx_.clone(), vec![vy.clone()]);
+            let real = ans(&r).unwrap_or_else(|| "ok".into());
+            emit(format!("c05.indices {sx} {sy} {st}"), real, site(&r));
+        }
+    }
+    // 14. `native_env_shape`: every native of the CURRENT tree, called once with an environment built by
+    // `bind_vars` for its signature; a panic in `pop_var`/`pop_fun` (jaq-core/src/filter.rs) is the defect
+    for (name, binds, _f) in jaq_all::data::funs() {
+        let sig: String = binds.iter().map(|b| if matches!(b, jaq_core::Bind::Fun(())) { 'f' } else { 'v' }).collect();
+        let argv: Vec<String> = binds.iter().enumerate().map(|(i, b)| if matches!(b, jaq_core::Bind::Fun(())) { ".".to_string() } else { format!("$a{i}") }).collect();
+        let vars: Vec<String> = (0..binds.len()).map(|i| format!("a{i}")).collect();
+        let text = call_text(name, &argv);
+        let Ok(f) = compile_vars(&text, &vars) else { continue };
+        if ["input", "inputs", "halt", "halt_error", "stderr_empty", "debug_empty"].contains(&name) {
+            // reads stdin / ends the process / logs: the shape theorem still applies, the call is skipped
+            continue;
+        }
+        let r = kernel_run(&f, Val::Null, vec![Val::Null; binds.len()]);
+        let real = match &r {
+            Err(e) if e.starts_with("P\t") && e.contains("filter.rs") => "P".to_string(),
+            _ => "ok 0".to_string(),
+        };
+        let s = if real == "P" { site(&r) } else { String::new() };
+        emit(format!("c05.envshape {}", if sig.is_empty() { "-".to_string() } else { sig }), real, s);
+        let _ = name;
+    }
+    // 15. the compiler's `Locals`: skeletons extracted from the REAL parse tree of manual examples, the
+    // standard library and generated binder-rich texts; the real compiler must not fire an assertion
+    let mut texts: Vec<String> = FILTER_SEEDS.iter().map(|s| s.to_string()).collect();
+    if let Some(i) = args.iter().position(|a| a == "--docs") {
+        if let Some(d) = args.get(i + 1) {
+            texts.extend(doc_examples(d));
+        }
+    }
+    for k in 0..400u32 {
+        texts.push(gen_binder_text(&mut rng, 1 + k % 4));
+    }
+    let mut seen = std::collections::BTreeSet::new();
+    for code in &texts {
+        if code.len() > 4000 || !seen.insert(code.clone()) {
+            continue;
+        }
+        let Some(t) = jaq_core::load::parse(code, |p| p.term()) else { continue };
+        let mut cx = SkCtx::default();
+        let sk = cx.term(&t);
+        if cx.binders == 0 {
+            continue;
+        }
+        let mut toks = vec![];
+        sk_tokens(&sk, &mut toks);
+        if toks.len() > 6000 {
+            continue;
+        }
+        let real = match guarded(|| compile(code).is_ok()) {
+            Ok(_) => "ok 0".to_string(),
+            Err((s, _)) => format!("P\t{s}"),
+        };
+        let (real, s) = match real.split_once('\t') {
+            Some((a, b)) => (a.to_string(), b.to_string()),
+            None => (real, String::new()),
+        };
+        emit(format!("c05.cwalk {}", toks.join(" ")), real, s);
+    }
+    // the standard library itself: `module(defs)` = all definitions opened, then closed in reverse
+    for (label, defs) in [("core", jaq_core::defs().collect::<Vec<_>>()), ("std", jaq_std::defs().collect()), ("json", jaq_json::defs().collect())] {
+        let mut cx = SkCtx::default();
+        let sk = cx.defs(&defs, Sk::L);
+        let mut toks = vec![];
+        sk_tokens(&sk, &mut toks);
+        let real = match guarded(|| compile(".").is_ok()) {
+            Ok(_) => "ok 0".to_string(),
+            Err(_) => "P".to_string(),
+        };
+        let _ = label;
+        emit(format!("c05.cwalk {}", toks.join(" ")), real, String::new());
     }
 }
 
